@@ -10,24 +10,28 @@ from ..loader import AnalysisError, Func, body_of
 
 # =========================================================================== R31
 def _memo_getters(repo):
-    """[(class, getter, memo field, value expr)] for getters of the lazily-memoised form
-    `if self._x is None: self._x = E` ... `return self._x`."""
+    """[(class, function, memo field, value expr)] for getters and methods that memoise lazily: some `self._x` is compared
+    with None, assigned a computed value and returned - `if self._x is None: self._x = E; return self._x` as well as
+    `if self._x is not None: return self._x; self._x = E; return self._x` and their variations."""
     out = []
     for c in repo.all_classes():
-        for name, g in c.getters.items():
-            body = body_of(g.node)
-            if len(body) < 2 or not isinstance(body[-1], ast.Return):
-                continue
-            ret = self_attr(body[-1].value) if body[-1].value is not None else None
-            if ret is None:
-                continue
-            for s in body[:-1]:
-                if (isinstance(s, ast.If) and isinstance(s.test, ast.Compare) and len(s.test.ops) == 1
-                        and isinstance(s.test.ops[0], ast.Is) and self_attr(s.test.left) == ret
-                        and isinstance(s.test.comparators[0], ast.Constant) and s.test.comparators[0].value is None):
-                    asg = [x for x in s.body if isinstance(x, ast.Assign) and any(self_attr(t) == ret for t in x.targets)]
-                    if asg:
-                        out.append((c, g, ret, asg[0].value))
+        for table in (c.getters, c.methods):
+            for name, g in table.items():
+                if name == "__init__":
+                    continue
+                tested, assigned, returned = set(), {}, set()
+                for n in fn_walk(g.node):
+                    if isinstance(n, ast.Compare) and len(n.ops) == 1 and isinstance(n.ops[0], (ast.Is, ast.IsNot)) \
+                            and isinstance(n.comparators[0], ast.Constant) and n.comparators[0].value is None and self_attr(n.left):
+                        tested.add(self_attr(n.left))
+                    if isinstance(n, ast.Assign) and not (isinstance(n.value, ast.Constant) and n.value.value is None):
+                        for t in n.targets:
+                            if self_attr(t):
+                                assigned.setdefault(self_attr(t), n.value)
+                    if isinstance(n, ast.Return) and n.value is not None and self_attr(n.value):
+                        returned.add(self_attr(n.value))
+                for m in sorted(tested & set(assigned) & returned):
+                    out.append((c, g, m, assigned[m]))
     return out
 
 
@@ -1102,6 +1106,14 @@ class _WholeCells(_CellInterp):
         if short == "empty":
             shape = args[0]
             return _WCells(shape[1] if isinstance(shape, (tuple, list)) and len(shape) > 1 else 1)
+        if short in ("column_stack", "stack") and args and isinstance(args[0], (tuple, list)):
+            if short == "stack" and kwargs.get("axis", args[1] if len(args) > 1 else 0) not in (1, -1):
+                raise AnalysisError("np.stack along another axis than the corner axis")
+            t = _WCells(len(args[0]))
+            t.cols = dict(enumerate(args[0]))
+            return t
+        if short == "divmod" and len(args) == 2:
+            return (Sym("floordiv", args[0], args[1]), Sym("mod", args[0], args[1]))
         if short in ("array", "asarray"):
             a = args[0]
             if isinstance(a, (list, tuple)) and len(a) == 1 and isinstance(a[0], (list, tuple)):
